@@ -10,7 +10,7 @@ open Irismod Irismod.Sdk Irismod.Farm Irismod.Spec
 theorem core_bankOnly {s s' : State} (b : BankOnly s s') (h : Core s) : Core s' := by
   have gp : ∀ id, getPool s' id = getPool s id := fun id => by unfold getPool; rw [b.pools]
   have gf : ∀ a id, getFarmer s' a id = getFarmer s a id := fun a id => by unfold getFarmer; rw [b.farmers]
-  refine ⟨poolsAll_same h.wf b.pools, ?_, ?_, ?_, ?_, ?_⟩
+  refine ⟨by rw [b.height]; exact h.hnn, poolsAll_same h.wf b.pools, ?_, ?_, ?_, ?_, ?_⟩
   · rw [b.height]; exact poolsAll_same h.time b.pools
   · obtain ⟨q1, q2, q3⟩ := h.queue
     refine ⟨?_, ?_, by rw [b.queue]; exact q3⟩
@@ -42,7 +42,7 @@ theorem core_updOk {s s' : State} {id : PoolId} {p p' : Pool} {amount : Int}
   have gself : getPool s' id = some p' := getPool_set_self _ _ _ _ h.pools
   have gother : ∀ id2, id ≠ id2 → getPool s' id2 = getPool s id2 := fun id2 e => getPool_set_other s s' id id2 p' h.pools e
   have gf : ∀ a i, getFarmer s' a i = getFarmer s a i := fun a i => by unfold getFarmer; rw [h.farmers]
-  refine ⟨poolsAll_set hc.wf h.pools (updOk_wf h hw), ?_, ?_, ?_, ?_, ?_⟩
+  refine ⟨by rw [h.height]; exact hc.hnn, poolsAll_set hc.wf h.pools (updOk_wf h hw), ?_, ?_, ?_, ?_, ?_⟩
   · rw [h.height]; exact poolsAll_set hc.time h.pools (updOk_time h ht hstart)
   · obtain ⟨q1, q2, q3⟩ := hc.queue
     refine ⟨?_, ?_, by rw [h.queue]; exact q3⟩
